@@ -350,15 +350,15 @@ Proof.
   intros G S Nm. set (dr := min0 st cur) in *.
   destruct (min0_member st cur G Nm) as [Nz [A Id]]. fold dr in Nz, A, Id.
   pose proof (gi_ids _ _ G dr A) as Ht.
-  assert (DisPend : forall st1 p, same_but st st1 dr ->
-            GInv (set_timer (disarm st1 dr) dr (with_pending (tm (disarm st1 dr) dr) p)) /\
-            Stat ran (set_timer (disarm st1 dr) dr (with_pending (tm (disarm st1 dr) dr) p))).
-  { intros st1 p SB. pose proof (disarm_G' st st1 dr G SB A) as G1.
+  assert (DisPend : forall st1 v, same_but st st1 dr -> t_armed v = false ->
+            GInv (set_timer (disarm st1 dr) dr v) /\
+            Stat ran (set_timer (disarm st1 dr) dr v)).
+  { intros st1 v SB Av. pose proof (disarm_G' st st1 dr G SB A) as G1.
     pose proof (Stat_frame ran st _ dr _ G G1 (disarm_frame st st1 dr G SB A) S) as S1.
     assert (A1 : t_armed (tm (disarm st1 dr) dr) = false) by (rewrite disarm_tm, Z.eqb_refl; reflexivity).
     split; [apply (set_notarmed_G N); auto|apply Stat_set_notarmed; auto]. }
   unfold run_step. destruct (t_after (tm st dr)).
-  - cbn [fst]. apply DisPend. apply same_but_refl.
+  - cbn [fst]. apply DisPend; [apply same_but_refl|]. cbn [t_armed with_pending with_reg]. rewrite disarm_tm, Z.eqb_refl; reflexivity.
   - destruct (t_cfg (tm st dr)) as [[[[c tg] dl] itv]|] eqn:Cf.
     + cbn [fst]. unfold configure. rewrite Cf.
       set (x1 := with_pending _ 0).
@@ -368,7 +368,7 @@ Proof.
       apply (resume_S ran st (set_timer st dr x1) dr G (same_but_set st dr x1 Ea Ei) A); auto.
       rewrite tm_set_timer_eq, Ep. reflexivity.
     + destruct (nz (t_pending (tm st dr))).
-      * cbn [fst]. apply DisPend. apply same_but_refl.
+      * cbn [fst]. apply DisPend; [apply same_but_refl|]. cbn [t_armed with_pending with_reg]. rewrite disarm_tm, Z.eqb_refl; reflexivity.
       * destruct (compute_missed _ _ _ _ _) as [[cnt tg] dl].
         set (x1 := with_values (tm st dr) tg dl (t_interval (tm st dr))).
         assert (SB : same_but st (set_timer st dr x1) dr) by (apply same_but_set; reflexivity).
@@ -387,7 +387,7 @@ Proof.
            split.
            ++ apply (set_same_G N); auto. intros _. simpl. apply even_pending.
            ++ apply Stat_set; auto.
-        -- apply DisPend. exact SB.
+        -- apply DisPend; [exact SB|]. cbn [t_armed with_pending with_reg]. rewrite disarm_tm, Z.eqb_refl; reflexivity.
 Qed.
 
 Definition mark (ran : Z -> bool) (i : Z) : Z -> bool := fun j => if j =? i then true else ran j.
@@ -708,9 +708,13 @@ Proof.
     + split; [apply QInv_set_notarmed; auto|]. eapply DInv_same; eauto; reflexivity.
   - destruct Gd as [Ht A]. split; [apply QInv_set_notarmed; auto|]. eapply DInv_same; eauto; reflexivity.
   - unfold set_cfg. split; [apply QInv_set; auto|]. eapply DInv_same; eauto; reflexivity.
-  - unfold register. destruct (t_cfg (tm st t)); auto. apply configure_Q; auto.
+  - destruct Gd as (Ht & R0 & A0). unfold register. rewrite R0. change (0 =? 1) with false. cbv iota.
+    assert (G1 : GInv (set_timer st t (with_armed (with_reg (tm st t) 1) false))) by (apply (set_notarmed_G N); auto).
+    assert (Q1 : QInv (set_timer st t (with_armed (with_reg (tm st t) 1) false))) by (apply QInv_set_notarmed; auto).
+    assert (D1 : DInv (set_timer st t (with_armed (with_reg (tm st t) 1) false))) by (eapply DInv_same; eauto; reflexivity).
+    destruct (t_cfg _); auto. apply configure_Q; auto.
   - apply configure_Q; auto.
-  - destruct Gd as [Ht P]. destruct (t_armed (tm st t)) eqn:A.
+  - destruct Gd as (Ht & P & _). destruct (t_armed (tm st t)) eqn:A.
     + destruct (resume_Q st st t G (same_but_refl _ _) A P Q) as [Q1 D1]. split; auto. apply DInv_dirty; auto.
     + apply resume_Q0; auto.
   - apply unregister_Q; auto.
@@ -1244,24 +1248,28 @@ Proof.
   { unfold wgt, psi. rewrite A, Id, Z.eqb_refl. cbn [andb]. destruct (Z.leb_spec (t_target (tm st dr)) now); [reflexivity|lia]. }
   pose proof (psi_range st dr) as Pr.
   (* the two shapes of "leaves the heap with pending data p" *)
-  assert (Leave : forall st1 p, (forall u, u <> dr -> tm st1 u = tm st u) ->
-            vok (tm st1 dr) -> t_cfg (tm st1 dr) = t_cfg (tm st dr) -> 0 <= p < T64 ->
-            let st' := set_timer (disarm st1 dr) dr (with_pending (tm (disarm st1 dr) dr) p) in
+  assert (Leave : forall st1 v, (forall u, u <> dr -> tm st1 u = tm st u) ->
+            vok v -> t_cfg v = t_cfg (tm st dr) -> t_armed v = false ->
+            let st' := set_timer (disarm st1 dr) dr v in
             (forall u, u <> dr -> tm st' u = tm st u) /\ (VInv st1 -> VInv st') /\
             wgt cur now st' dr = 0 /\ psi st' dr = psi st dr /\ t_armed (tm st' dr) = false).
-  { intros st1 p Ho V1 C1 Hp. cbv zeta.
-    assert (T' : tm (set_timer (disarm st1 dr) dr (with_pending (tm (disarm st1 dr) dr) p)) dr
-                 = with_pending (with_armed (tm st1 dr) false) p).
-    { rewrite tm_set_timer_eq, disarm_tm, Z.eqb_refl. reflexivity. }
+  { intros st1 v Ho V1 C1 Av. cbv zeta.
+    assert (T' : tm (set_timer (disarm st1 dr) dr v) dr = v) by apply tm_set_timer_eq.
     split; [intros u Nu; rewrite tm_set_timer_neq, disarm_other by auto; auto|].
-    split; [intros VV; apply VInv_set; [apply VInv_disarm; auto|]; rewrite disarm_tm, Z.eqb_refl; apply vok_pending; auto;
-            unfold vok in *; simpl; auto|].
-    split; [apply wgt_notarmed; rewrite T'; reflexivity|].
-    split; [unfold psi; rewrite T'; simpl; rewrite C1; reflexivity|rewrite T'; reflexivity]. }
+    split; [intros VV; apply VInv_set; [apply VInv_disarm; auto|auto]|].
+    split; [apply wgt_notarmed; rewrite T'; exact Av|].
+    split; [unfold psi; rewrite T'; rewrite C1; reflexivity|rewrite T'; exact Av]. }
+  assert (LeaveP : forall st1 p, vok (tm st1 dr) -> 0 <= p < T64 ->
+            vok (with_pending (tm (disarm st1 dr) dr) p) /\ vok (with_pending (with_reg (tm (disarm st1 dr) dr) 2) p) /\
+            t_cfg (with_pending (tm (disarm st1 dr) dr) p) = t_cfg (tm st1 dr) /\
+            t_cfg (with_pending (with_reg (tm (disarm st1 dr) dr) 2) p) = t_cfg (tm st1 dr) /\
+            t_armed (with_pending (tm (disarm st1 dr) dr) p) = false /\
+            t_armed (with_pending (with_reg (tm (disarm st1 dr) dr) 2) p) = false).
+  { intros st1 p V1 Hp. rewrite disarm_tm, Z.eqb_refl. unfold vok in *. simpl. tauto. }
   unfold run_step. fold dr. destruct (t_after (tm st dr)) eqn:Af.
   - (* dispatch_after *)
-    cbn [fst]. destruct (Leave st 2 ltac:(auto) (V dr) eq_refl ltac:(unfold T64; lia))
-      as (Ho & Vv & Wz & Ps & Ar).
+    cbn [fst]. destruct (LeaveP st 2 (V dr) ltac:(unfold T64; lia)) as (_ & L1 & _ & L2 & _ & L3).
+    destruct (Leave st _ ltac:(auto) L1 L2 L3) as (Ho & Vv & Wz & Ps & Ar).
     split; [exact Ho|]. split; [apply Vv; auto|]. split; [lia|]. split; [lia|].
     split; [intros ? X; try congruence; try lia|intros ? X; congruence].
   - destruct (t_cfg (tm st dr)) as [[[[c tg] dl] itv]|] eqn:Cf.
@@ -1274,9 +1282,10 @@ Proof.
       rewrite W0, Ps. unfold wgt. rewrite Cn. destruct (_ && _); [destruct (_ <=? _)|]; lia.
     + assert (Ps : psi st dr = 0) by (unfold psi; rewrite Cf; reflexivity).
       destruct (nz (t_pending (tm st dr))).
-      * cbn [fst]. destruct (Leave st (Z.lor (t_pending (tm st dr)) DISPATCH_TIMER_DISARMED_MARKER)
-                               ltac:(auto) (V dr) Cf
-                               ltac:(apply lor1_range; auto)) as (Ho & Vv & Wz & Ps' & Ar).
+      * cbn [fst]. destruct (LeaveP st (Z.lor (t_pending (tm st dr)) DISPATCH_TIMER_DISARMED_MARKER) (V dr)
+                               ltac:(apply lor1_range; auto)) as (L1 & _ & L2 & _ & L3 & _).
+        rewrite Cf in L2.
+        destruct (Leave st _ ltac:(auto) L1 L2 L3) as (Ho & Vv & Wz & Ps' & Ar).
         split; [exact Ho|]. split; [apply Vv; auto|]. split; [lia|]. split; [lia|].
     split; [intros ? X; try congruence; try lia|intros ? X; congruence].
       * pose proof (missed_push (t_target (tm st dr)) (t_deadline (tm st dr)) (t_interval (tm st dr)) now
@@ -1311,9 +1320,10 @@ Proof.
               destruct (Z.leb_spec tg now); lia.
            ++ unfold psi at 1. rewrite T'. unfold x1. simpl. rewrite Cf. lia.
            ++ intros _ _. rewrite T'. unfold x1. simpl. split; [exact Id|lia].
-        -- destruct (Leave st1 (Z.lor (u64 (Z.shiftl cnt 1)) DISPATCH_TIMER_DISARMED_MARKER)
-                       O1 ltac:(rewrite T1; auto)
-                       ltac:(rewrite T1; unfold x1; simpl; exact Cf) ltac:(apply lor1_range; auto)) as (Ho & Vv & Wz & Ps' & Ar).
+        -- destruct (LeaveP st1 (Z.lor (u64 (Z.shiftl cnt 1)) DISPATCH_TIMER_DISARMED_MARKER)
+                       ltac:(rewrite T1; auto) ltac:(apply lor1_range; auto)) as (L1 & _ & L2 & _ & L3 & _).
+           rewrite T1 in L2. change (t_cfg x1) with (t_cfg (tm st dr)) in L2. rewrite Cf in L2.
+           destruct (Leave st1 _ O1 L1 L2 L3) as (Ho & Vv & Wz & Ps' & Ar).
            split; [exact Ho|]. split; [apply Vv; auto|]. split; [lia|]. split; [lia|].
     split; [intros ? X; try congruence; try lia|intros ? X; congruence].
 Qed.
@@ -1558,7 +1568,10 @@ Proof.
   - apply VInv_set; [destruct (t_armed _); auto using VInv_unregister|apply vok_fresh].
   - apply VInv_set; auto. destruct (V t) as (Vt & Vi & Vp & Vc). unfold vok. simpl. unfold UINT64_MAX, T64 in *. repeat split; auto; lia.
   - unfold set_cfg. apply VInv_set; auto. destruct (V t) as (Vt & Vi & Vp & Vc). unfold vok. simpl. tauto.
-  - unfold register. destruct (t_cfg (tm st t)); auto. apply (VInv_configure N HN); auto.
+  - unfold register.
+    assert (V1 : VInv (if t_reg (tm st t) =? 1 then st else set_timer st t (with_armed (with_reg (tm st t) 1) false))).
+    { destruct (_ =? 1); auto. apply VInv_set; auto. pose proof (V t) as Vt. unfold vok in *. simpl. exact Vt. }
+    destruct (t_cfg _); auto. apply (VInv_configure N HN); auto.
   - apply (VInv_configure N HN); auto.
   - apply VInv_resume; auto.
   - apply VInv_unregister; auto.
